@@ -9,7 +9,9 @@ NAMES = ["db", "client", "fx_a", "cls", "cfg", "srv", "e", "sync"]   # "e", "syn
 DECOS = ["@pytest.fixture", "@fixture", "@pytest_asyncio.fixture", "@pytest.fixture()", "@fixture()",
          "@pytest.fixture(scope=\"module\")", "@pytest.fixture(scope='session', autouse=True)",
          "@pytest.fixture(autouse=False)", "@pytest.fixture(name=\"%s\")", "@pytest.fixture(name='%s', scope=\"Class\")",
-         "@pytest.fixture(scope=SCOPE)", "@pytest.fixture(scope=\"bogus\", autouse=1)", "@pytest.fixture(params=[1, 2])"]
+         "@pytest.fixture(scope=SCOPE)", "@pytest.fixture(scope=\"bogus\", autouse=1)", "@pytest.fixture(params=[1, 2])",
+         "@pytest_asyncio.fixture(loop_scope=\"session\")", "@pytest_asyncio.fixture(loop_scope=\"session\", scope=\"module\")",
+         "@pytest_asyncio.fixture(scope=\"module\", loop_scope=\"session\")"]
 NON_FIXTURE_DECOS = ["@staticmethod", "@other.fixture", "@pytest.fixtures", "@mark.skip", "@pytest.mark.skip", "@functools.wraps(f)"]
 RETURNS = [None, "int", "str", "Session", "db.Session", "list[int]", "dict[str, int]", "int | None", "Optional[Session]",
            "\"Session\"", "Generator[int, None, None]", "Iterator[Session]", "AsyncGenerator[str, None]", "Generator", "typing.Iterator[int]",
